@@ -26,6 +26,8 @@ func init() {
 			ruleSkipReadSiblings(r)
 			ruleDecompressedLength(r)
 			ruleDirectIOAligned(r)
+			ruleAllocBounded(r)
+			ruleHeaderSizesChecked(r)
 		})
 	register("C12",
 		"Static rules that a cut or header-damaged file cannot yield invented data: the header CRC is the same polynomial on both sides, covers exactly the four parsed fields, is reset before and taken before the stored checksum is read, and a mismatch or a wrong marker returns the documented error with no success return around the comparison; every payload read is exact-length (io.ReadFull with tested error, or ReadAt with the count compared to the expected length selected by compressor presence); the file header's version and compression ranges equal the constant tables and both Open paths go through that check; no error is dropped in the reader call graph (E-ERRFLOW). Decides these shapes; the prefix property over truncation lengths and CRC strength are not decided.",
@@ -37,6 +39,7 @@ func init() {
 			ruleFormat(r)
 			ruleReaderErrflow(r)
 			ruleSkipBounded(r)
+			ruleHeaderSizesChecked(r)
 		})
 	register("C20",
 		"Static agreement between the published Kaitai schema / its generated Go reader and the native writer: the compression enum (values and names) equals the writer's constant table in the .ksy and in the generated constants; the record field sequence and the marker literal equal the writer's header; the file header is two little-endian u4; the generated payload-length function is evaluated abstractly for the four cases the writer produces (nil record in a compressed / uncompressed file, uncompressed, compressed) and must yield 0 / 0 / uncompressed / compressed length; the schema expression mentions the same inputs. Decides these shapes; record-by-record equality for all files is not decided.",
